@@ -16,7 +16,7 @@ import math
 
 from ..match import calls, expected_term, fold_with, init_constants, returns, term_of
 from ..model import Inconclusive, own_nodes, parents
-from ..terms import show, walk_term
+from ..terms import Scope, show, walk_term
 
 EXPLANATION = ('Constant folding of the sketch parameters (R8), typestate analysis of HyperLogLogWCache.add by abstract interpretation of its body in the five abstract '
                'pre-states (R18), canonical-term equality of the register update and of the linear-counting estimator (R15), interval argument for index range and rank >= 1, '
@@ -417,6 +417,12 @@ def register_update(chk, upd, consts):
     val = term_of(upd, st.value, bound)
     E = lambda src: expected_term(m, src, {'x': ('role', 'x')})
     idx_ok = idx in (E('x & (self.m - 1)'), E('x % self.m'))
+    # a local of the function that is left in the term (e.g. a loop variable) was not resolved: the comparison would compare names, not values
+    sc_u = Scope(upd)
+    unresolved = [x[1] for t_ in (idx, val) for x in walk_term(t_) if isinstance(x, tuple) and len(x) == 2 and x[0] == 'name' and x[1] in sc_u.defs and x[1] not in upd.params]
+    if unresolved and not idx_ok:
+        chk.unsure('C14.3c', 'R15', upd.site(st), ast.unparse(st)[:100], f'the register store is written over the local `{unresolved[0]}` that this rule cannot resolve (bound by a loop or more than once): bucket and rank are not compared')
+        return
     chk.expect(idx_ok, 'C14.3c', 'R15', upd.site(st), ast.unparse(st.targets[0]), 'bucket = low p bits of the digest, in [0, m)', f'the register index must be x & (m-1); found {show(idx)[:100]}')
     rho = 'self.width - (x >> self.p).bit_length()'
     val_ok = val in (E(f'max(self.M[x & (self.m - 1)], {rho})'), E(f'max({rho}, self.M[x & (self.m - 1)])'), E(f'max(self.M[x % self.m], {rho})'),
@@ -443,7 +449,7 @@ def register_update(chk, upd, consts):
     for u in updates + ctor_data:
         a = u.args[0] if u.args else None
         ok = a is not None and bool(vnames & {n.id for n in ast.walk(a) if isinstance(n, ast.Name)})
-        chk.expect(ok, 'C14.3e', 'origin', upd.site(u), ast.unparse(u), 'the hashed bytes are those of the value', 'the hasher is not fed with the value passed in')
+        chk.expect(ok, 'C14.3e', 'origin', upd.site(u), ast.unparse(u), 'the hashed bytes are those of the value', 'the hasher is not fed with the value passed in', soft=True)
 
 
 # -- 4 estimator --------------------------------------------------------------------
